@@ -676,6 +676,16 @@ func runG4(p *an.Prog, r *an.Result) {
 				if an.CallName(&x.Call) == "(render.Config).compileNode" {
 					perChild = true
 				}
+			case *ssa.Store:
+				// out[i] = compiled, with i the index of the forward range and out made with the input's length
+				if ia, ok := x.Addr.(*ssa.IndexAddr); ok && isForwardRangeIndex(ia.Index) {
+					if ms, ok := ia.X.(*ssa.MakeSlice); ok {
+						if c := an.CallOf(ms.Len); c != nil && an.CallName(c) == "builtin.len" && c.Args[0] == ssa.Value(h.Params[1]) {
+							atEnd = true
+							appendAt = x.Block()
+						}
+					}
+				}
 			}
 		})
 		// one-to-one: no iteration gets back to the loop header without having appended
